@@ -51,6 +51,13 @@ def run(ctx: Any, prog: Program) -> None:
     ctx.rule('C12.W5', 'BSP.save writes only through the AtomicWriter handle', floor=5)
 
     aw = core.methods('AtomicWriter')
+
+    def temp_aliases(fn_: ast.AST) -> Set[str]:
+        # locals that hold the temp path: `temp_name = self._temp_name`
+        return {t.id for a in walk_no_nested(fn_) if isinstance(a, ast.Assign) and dotted(a.value) == 'self._temp_name' for t in a.targets if isinstance(t, ast.Name)}
+
+    def is_temp_path(e: ast.AST, fn_: ast.AST) -> bool:
+        return dotted(e) == 'self._temp_name' or (isinstance(e, ast.Name) and e.id in temp_aliases(fn_))
     # ---- W1 ----------------------------------------------------------------------------------------------
     for name, fn in aw.items():
         for n in walk_no_nested(fn):
@@ -67,7 +74,7 @@ def run(ctx: Any, prog: Program) -> None:
                 elif isinstance(par, ast.Call) and n in par.args and (dotted(par.func) or '').split('.')[-1] in READ_ONLY_PROBES:
                     ok = True        # os.stat(self.filename) etc
                 elif isinstance(par, ast.Call) and isinstance(par.func, ast.Attribute) and par.func.attr == 'replace' and n in par.args \
-                        and dotted(par.func.value) == 'self._temp_name':
+                        and is_temp_path(par.func.value, fn):
                     ok = True
                 elif isinstance(par, ast.FormattedValue) or (isinstance(par, ast.Call) and dotted(par.func) in ('repr', 'str')):
                     ok = True
@@ -112,10 +119,12 @@ def run(ctx: Any, prog: Program) -> None:
         raise AnalysisError('AtomicWriter.__exit__ not found')
     g = build_cfg(ex, may_raise)
 
+    ex_alias = temp_aliases(ex)
+
     def has_call(node: Any, attr: str, recv_contains: Optional[str] = None) -> bool:
         for c in calls_in_stmt(node.stmt):
             if isinstance(c.func, ast.Attribute) and c.func.attr == attr:
-                if recv_contains is None or recv_contains in U(c.func.value):
+                if recv_contains is None or recv_contains in U(c.func.value) or (recv_contains == '_temp_name' and isinstance(c.func.value, ast.Name) and c.func.value.id in ex_alias):
                     return True
         return False
     replace_nodes = [n for n in g.nodes if n.kind in ('stmt', 'return') and has_call(n, 'replace', '_temp_name')]
@@ -218,7 +227,9 @@ def run(ctx: Any, prog: Program) -> None:
     ctx.check('C12.W2', p is None, core, replace_nodes[0].stmt, 'replace() is reachable although the body raised (exc_type is not None)' + (': ' + g.describe(p) if p else ''),
               func='AtomicWriter.__exit__', text='replace only on success')
     # W3: remove unlink nodes, the success edge out of replace, and the `_temp_name is None` early exit; nothing else may reach EXIT/RAISE
-    none_tests = [n for n in g.nodes if n.kind == 'test' and '_temp_name is None' in U(n.stmt)]
+    none_tests = [n for n in g.nodes if n.kind == 'test' and ('_temp_name is None' in U(n.stmt) or (isinstance(n.stmt, ast.Compare) and isinstance(n.stmt.left, ast.Name) and n.stmt.left.id in ex_alias
+                                                                                                      and len(n.stmt.ops) == 1 and isinstance(n.stmt.ops[0], ast.Is) and isinstance(n.stmt.comparators[0], ast.Constant)
+                                                                                                      and n.stmt.comparators[0].value is None))]
     removed_edges = set()
     for t in none_tests:
         for m, lab in g.succ[t.id]:
